@@ -430,32 +430,64 @@ def run(ctx):
     else:
         ctx.fail_closed("EXPFOLDER", "patch::get_expansion_folder_sub not found")
 
-    # ---- TEMPLATE: read side vs patch side
-    idx_t = fmt.templates_of(ctx.wire, "repository::Repository::index_filename")
-    idx2_t = fmt.templates_of(ctx.wire, "repository::Repository::index2_filename")
-    dat_t = fmt.templates_of(ctx.wire, "repository::Repository::dat_filename")
-    patch_t = fmt.templates_of(ctx.wire, "patch::ZiPatch::apply")
-    p_dat = [t for t in patch_t if ".dat" in (t.template or "")]
-    p_idx = [t for t in patch_t if ".index" in (t.template or "")]
-    if len(idx_t) != 1 or len(dat_t) != 1 or len(idx2_t) != 1 or len(p_dat) != 1 or len(p_idx) != 1:
-        ctx.fail_closed("TEMPLATE", f"file-name templates not found (index {len(idx_t)}, index2 {len(idx2_t)}, dat {len(dat_t)}, patch dat {len(p_dat)}, patch index {len(p_idx)})")
+    # ---- TEMPLATE: read side vs patch side (string expressions read off the MIR: pv.strx)
+    from ..strx import StrX, show as sshow
+    from ..prov import derive as _derive, index_of as _index_of
+
+    def fn_string(fn):
+        b = prog.body(fn)
+        if not b:
+            return None, None, None
+        sx = StrX(b)
+        return b, sx, sx.returned()
+
+    def roles(b, sx, pcs, table):
+        """Role of every formatted argument, by provenance: table maps role -> predicate on the Derive."""
+        ix = _index_of(b)
+        out = []
+        for p_ in pcs:
+            if p_[0] == "lit":
+                out.append(("lit", p_[1]))
+            elif p_[0] == "arg":
+                d = _derive(ix, p_[3]) if p_[3] is not None else None
+                r = next((name for name, pred in table if d is not None and pred(d)), "?")
+                out.append((r, p_[1], p_[2]))
+            elif p_[0] == "opaque":
+                d = _derive(ix, p_[1]) if p_[1] is not None else None
+                r = next((name for name, pred in table if d is not None and pred(d)), "?")
+                out.append((r, "opaque", None))
+            else:
+                out.append((p_[0],))
+        return out
+
+    def calls_of(d):
+        return {c_.split("::")[-1] for c_ in d.calls}
+
+    read_tbl = [
+        ("platform", lambda d: "get_platform_string" in calls_of(d) and "platform" in d.names),
+        ("expansion", lambda d: "expansion" in calls_of(d)),
+        ("index_filename", lambda d: "index_filename" in calls_of(d)),
+        ("category", lambda d: d.params == {3} and not (calls_of(d) & {"expansion", "get_platform_string"})),
+        ("chunk", lambda d: d.params == {2}),
+        ("data_file_id", lambda d: d.params == {4}),
+    ]
+    ib, isx, ipc = fn_string("repository::Repository::index_filename")
+    i2b, i2sx, i2pc = fn_string("repository::Repository::index2_filename")
+    dbb, dsx, dpc = fn_string("repository::Repository::dat_filename")
+    ab_ = prog.body("patch::ZiPatch::apply")
+    if not (ib and i2b and dbb and ab_):
+        ctx.fail_closed("TEMPLATE", "index_filename / index2_filename / dat_filename / ZiPatch::apply not found")
     else:
-        def norm_args(t):
-            return [(p[2], (p[3] or "").replace(" ", "")) for p in t.pieces if p[0] == "arg"]
-
-        def lits(t):
-            return [p[1] for p in t.pieces if p[0] == "lit"]
-
-        ia, da = norm_args(idx_t[0]), norm_args(dat_t[0])
-        ctx.ob("TEMPLATE", "index|read-side", [a[0] for a in ia] == ["02x", "02", "02", ""] and lits(idx_t[0]) == [".", ".index"] and ia[0][1].startswith("categoryas") and ia[1][1] == "self.expansion()" and ia[2][1] == "chunk" and ia[3][1] == "get_platform_string(&self.platform)", f"index_filename = {idx_t[0].template!r} with {ia}; must be {{category:02x}}{{expansion:02}}{{chunk:02}}.{{platform}}.index", "src/repository.rs", idx_t[0].line, sample=True)
-        ctx.ob("TEMPLATE", "dat|read-side", [a[0] for a in da] == ["02x", "02", "02", "", ""] and lits(dat_t[0]) == [".", ".dat"] and da[0][1].startswith("categoryas") and [a[1] for a in da[1:]] == ["expansion", "chunk", "platform", "data_file_id"], f"dat_filename = {dat_t[0].template!r} with {da}; must be {{category:02x}}{{expansion:02}}{{chunk:02}}.{{platform}}.dat{{id}}", "src/repository.rs", dat_t[0].line)
-        i2 = idx2_t[0]
-        ctx.ob("TEMPLATE", "index2|read-side", i2.shape() == [("arg", ""), ("lit", "2")] and "index_filename" in (i2.pieces[0][3] or ""), f"index2_filename = {i2.template!r} of {i2.pieces[0][3]}; must be index_filename + '2'", "src/repository.rs", i2.line)
-        # locals `expansion` / `platform` in dat_filename are what index_filename uses inline
-        dfb = prog.body("repository::Repository::dat_filename")
-        if dfb:
-            calls = [(t_.get("res") or "") for _bi, t_ in dfb.calls()]
-            ctx.ob("TEMPLATE", "dat|locals", "repository::Repository::expansion" in calls and "common::get_platform_string" in calls, "dat_filename's `expansion`/`platform` come from self.expansion() and get_platform_string", dfb.file, dfb.line)
+        W2X, W2, W4X, PLAIN = (2, 16, True), (2, 10, True), (4, 16, True), (0, 10, False)
+        ir = roles(ib, isx, ipc, read_tbl)
+        dr = roles(dbb, dsx, dpc, read_tbl)
+        i2r = roles(i2b, i2sx, i2pc, read_tbl)
+        want_i = [("category", "lower_hex", W2X), ("expansion", "display", W2), ("chunk", "display", W2), ("lit", "."), ("platform", "display", PLAIN), ("lit", ".index")]
+        want_d = [("category", "lower_hex", W2X), ("expansion", "display", W2), ("chunk", "display", W2), ("lit", "."), ("platform", "display", PLAIN), ("lit", ".dat"), ("data_file_id", "display", PLAIN)]
+        ctx.ob("TEMPLATE", "index|read-side", ir == want_i, f"index_filename = {sshow(ipc)!r} of {[x[0] for x in ir if x[0] != 'lit']}; must be {{category:02x}}{{expansion:02}}{{chunk:02}}.{{platform}}.index", ib.file, ib.line, sample=True)
+        ctx.ob("TEMPLATE", "dat|read-side", dr == want_d, f"dat_filename = {sshow(dpc)!r} of {[x[0] for x in dr if x[0] != 'lit']}; must be {{category:02x}}{{expansion:02}}{{chunk:02}}.{{platform}}.dat{{id}}", dbb.file, dbb.line)
+        ok_i2 = i2r == want_i[:-1] + [("lit", ".index2")] or (len(i2r) == 2 and i2r[0][0] == "index_filename" and i2r[1] == ("lit", "2") and (i2r[0][1] == "opaque" or i2r[0][2] == PLAIN))
+        ctx.ob("TEMPLATE", "index2|read-side", ok_i2, f"index2_filename = {sshow(i2pc)!r} of {[x[0] for x in i2r if x[0] != 'lit']}; must be index_filename + '2'", i2b.file, i2b.line)
         exb = prog.body("repository::Repository::expansion")
         if exb:
             t = Table(exb)
@@ -468,19 +500,40 @@ def run(ctx):
                 ctx.fail_closed("TEMPLATE", f"Repository::expansion: {e}")
         else:
             ctx.fail_closed("TEMPLATE", "repository::Repository::expansion not found")
-        pd, pi = norm_args(p_dat[0]), norm_args(p_idx[0])
-        # patch side: {main_id:02x}{sub_id:04x}.{platform}.dat{file_id}; sub_id = expansion<<8 | chunk, so 04x == two
-        # 2-digit fields that coincide with the read side's decimal {:02}{:02} on 0..9
-        ctx.ob("TEMPLATE", "dat|patch-side", [a[0] for a in pd] == ["02x", "04x", "", ""] and lits(p_dat[0]) == [".", ".dat"] and [a[1] for a in pd] == ["main_id", "sub_id", "get_platform_string(&target_info.platform)", "file_id"], f"patch dat name = {p_dat[0].template!r} with {pd}", "src/patch.rs", p_dat[0].line)
-        ctx.ob("TEMPLATE", "index|patch-side", [a[0] for a in pi] == ["02x", "04x", ""] and lits(p_idx[0]) == [".", ".index"] and [a[1] for a in pi] == ["main_id", "sub_id", "get_platform_string(&target_info.platform)"], f"patch index name = {p_idx[0].template!r} with {pi}", "src/patch.rs", p_idx[0].line)
-        # piecewise agreement: same literal skeleton, same category spec, 2+2 digits vs 4 digits
-        def skeleton(t):
-            return [p[1] for p in t.pieces if p[0] == "lit"]
+        # patch side: the names built while applying a command ({main_id:02x}{sub_id:04x}.{platform}.dat{file_id});
+        # sub_id = expansion << 8 | chunk, so 04x is the two 2-digit fields of the read side (which coincide with the read
+        # side's decimal {:02}{:02} on 0..9)
+        asx = StrX(ab_)
+        patch_tbl = [
+            ("platform", lambda d: "get_platform_string" in calls_of(d) and "platform" in d.names),
+            ("main_id", lambda d: (d.names & {"main_id", "sub_id", "file_id"}) == {"main_id"}),
+            ("sub_id", lambda d: (d.names & {"main_id", "sub_id", "file_id"}) == {"sub_id"}),
+            ("file_id", lambda d: (d.names & {"main_id", "sub_id", "file_id"}) == {"file_id"}),
+        ]
+        sites = {"dat": [], "index": []}
+        for bi, pcs in asx.format_sites():
+            lits = "".join(p_[1] for p_ in pcs if p_[0] == "lit")
+            if ".dat" in lits:
+                sites["dat"].append(roles(ab_, asx, pcs, patch_tbl))
+            elif ".index" in lits:
+                sites["index"].append(roles(ab_, asx, pcs, patch_tbl))
+        want_pd = [("main_id", "lower_hex", W2X), ("sub_id", "lower_hex", W4X), ("lit", "."), ("platform", "display", PLAIN), ("lit", ".dat"), ("file_id", "display", PLAIN)]
+        want_pi = [("main_id", "lower_hex", W2X), ("sub_id", "lower_hex", W4X), ("lit", "."), ("platform", "display", PLAIN), ("lit", ".index")]
+        ctx.ob("TEMPLATE", "dat|patch-side", bool(sites["dat"]) and all(x == want_pd for x in sites["dat"]), f"patch-side dat names ({len(sites['dat'])} sites): {sites['dat'][:1]}; must be {{main_id:02x}}{{sub_id:04x}}.{{platform}}.dat{{file_id}}", ab_.file, ab_.line)
+        # the index name may carry a file-id suffix appended separately (only when non-zero) or as a trailing argument
+        def idx_ok(x):
+            return x == want_pi or (x[: len(want_pi)] == want_pi and all(y[0] in ("file_id", "?") for y in x[len(want_pi):]))
 
-        w_read = [fmt.spec_width(a[0]) for a in da[:3]]
-        w_patch = [fmt.spec_width(a[0]) for a in pd[:2]]
-        ok = skeleton(dat_t[0]) == skeleton(p_dat[0]) and skeleton(idx_t[0]) == skeleton(p_idx[0]) and w_read[0] == w_patch[0] == (2, 16, True) and w_read[1] == w_read[2] == (2, 10, True) and w_patch[1] == (4, 16, True)
-        ctx.ob("TEMPLATE", "read-vs-patch", ok, f"read side widths {w_read}, patch side widths {w_patch}; literal skeletons {skeleton(dat_t[0])} / {skeleton(p_dat[0])}", "src/patch.rs", p_dat[0].line)
+        ctx.ob("TEMPLATE", "index|patch-side", bool(sites["index"]) and all(idx_ok(x) for x in sites["index"]), f"patch-side index names ({len(sites['index'])} sites): {sites['index'][:1]}; must be {{main_id:02x}}{{sub_id:04x}}.{{platform}}.index[id]", ab_.file, ab_.line)
+        ctx.floor("TEMPLATE", "patch-side file names", len(sites["dat"]) + len(sites["index"]), 5)
+
+        def skeleton(x):
+            return [y[1] for y in x if y[0] == "lit"]
+
+        w_read = [x[2] for x in dr if x[0] in ("category", "expansion", "chunk")]
+        w_patch = [x[2] for x in (sites["dat"][0] if sites["dat"] else []) if x[0] in ("main_id", "sub_id")]
+        ok = bool(sites["dat"]) and bool(sites["index"]) and skeleton(dr) == skeleton(sites["dat"][0]) and skeleton(ir) == skeleton(sites["index"][0])[:2] and w_read == [W2X, W2, W2] and w_patch == [W2X, W4X]
+        ctx.ob("TEMPLATE", "read-vs-patch", ok, f"read side widths {w_read}, patch side widths {w_patch}; literal skeletons {skeleton(dr)} / {skeleton(sites['dat'][0]) if sites['dat'] else None}", ab_.file, ab_.line)
 
 
 def _strip(e):
